@@ -8,7 +8,7 @@ import numpy
 PROPERTY = "C19"
 LEVEL = "exploration"
 NEED_EXT = True
-REQUIRED = ["transform.seen", "transform.unseen.raise", "transform.unseen.skip", "transform.single",
+REQUIRED = ["history.refit", "transform.seen", "transform.unseen.raise", "transform.unseen.skip", "transform.single",
             "transform.index"]
 RULE = ("frames with 1-4 categorical (dtype object) and 0-3 numeric columns, 1-6 categories, missing cells, four "
         "index kinds; options columns explicit/auto, remove, single, skip_errors; an unseen category planted at "
@@ -96,13 +96,21 @@ def run_case(case, ctx):
     cat_cols_all = names[:ncat]
     intcat = rng.rand() < 0.15
 
+    # how a missing cell is spelled: None, the numpy.nan singleton, or a float NaN that is not that singleton
+    # (what float('nan'), a parsed file or arithmetic produce)
+    misskind = ["None", "numpy.nan", "fresh-float-nan", "mixed"][case["sub"] % 4]
+
+    def missing_value():
+        k = misskind if misskind != "mixed" else ["None", "numpy.nan", "fresh-float-nan"][rng.randint(3)]
+        return None if k == "None" else (numpy.nan if k == "numpy.nan" else float("nan"))
+
     def draw(n, pools, miss=0.15):
         data = {}
         for c in names:
             if c in cat_cols_all:
                 col = numpy.empty(n, dtype=object)
                 for i in range(n):
-                    col[i] = None if rng.rand() < miss else pools[c][rng.randint(len(pools[c]))]
+                    col[i] = missing_value() if rng.rand() < miss else pools[c][rng.randint(len(pools[c]))]
                 data[c] = col
             else:
                 r = rng.rand()
@@ -141,7 +149,16 @@ def run_case(case, ctx):
         seen = sorted(set(v for v in train[c].tolist() if not _missing(v)))
         if len(seen) >= 2:
             remove = ["%s=%s" % (c, seen[0])]
-    cfg = {"ncat": ncat, "nnum": nnum, "rows": nrow, "index": ikind, "single": single, "explicit_columns": explicit,
+    numeric_cat = bool(intcat and explicit and case["sub"] % 3 == 0)
+    if numeric_cat:
+        # categorical columns declared through `columns=` and stored with a numeric dtype (a hole makes them float)
+        for c in cat_cols_all:
+            train[c] = train[c].astype(float)
+            test[c] = test[c].astype(float)
+        ctx.cls("numeric-dtype-categories")
+    ctx.cls("missing=" + misskind)
+    cfg = {"missing_as": misskind, "numeric_dtype_categories": numeric_cat,
+           "ncat": ncat, "nnum": nnum, "rows": nrow, "index": ikind, "single": single, "explicit_columns": explicit,
            "cat_cols": cat_cols, "remove": remove, "int_categories": intcat, "sub": case["sub"]}
     ctx.cls("index=" + ikind)
     ctx.cls("single" if single else "indicators")
@@ -229,6 +246,39 @@ def run_case(case, ctx):
                 ctx.violation(K + "/after-refused-calls/raised/%s" % type(e).__name__, str(e)[:150], cfg=cfg)
         if len(cat_cols) >= 2:
             ctx.nontriv(cfg, skip)
+    # histories on one object with auto-detected columns: fitted on a frame with fewer categorical columns first
+    # (or refused first), then on the full frame; a clone of a fitted object fitted on the full frame
+    if not explicit and len(cat_cols) >= 2 and not remove:
+        from sklearn.base import clone
+        exp, err = reference(train, test, cat_cols, remove, single, True)
+        small = train.drop(columns=cat_cols[1:])
+        for hname in ("fit-narrow-then-full", "refused-then-full", "clone-of-fitted"):
+            K = "C19/history/%s" % hname
+            try:
+                h = make(True)
+                p0 = repr(sorted(h.get_params().items()))
+                if hname == "fit-narrow-then-full":
+                    h.fit(small)
+                    h.transform(small)
+                elif hname == "refused-then-full":
+                    try:
+                        h.fit(small.iloc[:0])
+                    except Exception:
+                        pass
+                    try:
+                        h.fit(None)
+                    except Exception:
+                        pass
+                else:
+                    h = clone(make(True).fit(small))
+                ctx.check(repr(sorted(h.get_params().items())) == p0, K + "/params-changed",
+                          "fit changed the parameters (columns=%r)" % (h.get_params().get("columns"),), cfg=cfg)
+                h.fit(train)
+                out = h.transform(test)
+                ctx.hit("history.refit")
+                compare(ctx, K, out, exp, test, cfg, hname)
+            except Exception as e:
+                ctx.violation(K + "/raised/%s" % type(e).__name__, str(e)[:150], cfg=cfg)
     # fit_transform = fit then transform
     tr = make(True)
     try:
